@@ -32,7 +32,7 @@ REAL = ["bec2format.bec2file (InitEccAuthBlock, EccEncryptor, EccDecryptor)", "b
         "ecdsa (keys, ecdh, ellipticcurve, util.randrange)", "pyaes"]
 STUBS = ["RNG: SimRng behind os.urandom shims", "key generation observer (register_PrivateEccKey)",
          "device model: RefP256 + RefAES", "openssl binary (thorough tier sample)"]
-PROBES = ["opened-block-packed-without-recipient", "runs-with-assertions-disabled", "invalid-block-presented-twice", "pack-after-unpack-same-object", "subclass-with-own-default-keys-used-first", "selector-changed-between-packs", "file-level-pack", "ext-encryptors-not-a-list", "shared-encryptor-two-threads", "keystore-decoys", "default-recipient", "selector-nonzero-default", "edge-recipient-scalar", "edge-ephemeral-scalar",
+PROBES = ["first-ecc-operations-of-the-process", "opened-block-packed-without-recipient", "runs-with-assertions-disabled", "invalid-block-presented-twice", "pack-after-unpack-same-object", "subclass-with-own-default-keys-used-first", "selector-changed-between-packs", "file-level-pack", "ext-encryptors-not-a-list", "shared-encryptor-two-threads", "keystore-decoys", "default-recipient", "selector-nonzero-default", "edge-recipient-scalar", "edge-ephemeral-scalar",
           "randrange-retry", "session-key-trailing-zero", "point-off-curve-rejected", "point-coordinate-ge-p",
           "point-zero", "point-negated-still-on-curve", "openssl-agrees"]
 THOROUGH_ONLY_PROBES = ["openssl-agrees"]
@@ -144,16 +144,30 @@ def _run_conc(case):
         env.install_rng(lambda n, site: rngs[s.me().tid](n, site))
         priv = prov.make_priv(env, case["recip"])
         shared = bf.EccEncryptor(sel, priv.public_key)
+        if case["rng"] % 2 == 0:
+            # the threads' ECC operations are the first ones of the process: the curve's generator object is new,
+            # its multiplication table gets built inside the run
+            cv = env.ecdsa.curves.NIST256p
+            saved.setdefault("gen", cv.generator)
+            g0 = saved["gen"]
+            cv.generator = env.ecdsa.ellipticcurve.PointJacobi(cv.curve, g0.x(), g0.y(), 1, cv.order, generator=True)
+            state["fresh"] = True
 
         def body(i):
             def fn():
                 return bf.InitEccAuthBlock(sel).pack(bytes.fromhex(case["skeys"][i]), [shared])
             return fn
         return [body(0), body(1)]
+    saved = {}
+    state = {}
     try:
         dry, cc, pre = conc.run_conc(make_bodies, case["preempt"], case["choices"], with_ecdsa=True, first=0)
     finally:
+        if "gen" in saved:
+            env.ecdsa.curves.NIST256p.generator = saved["gen"]
         env.restore_registry()
+    if state.get("fresh"):
+        out.probes["first-ecc-operations-of-the-process"] += 1
     npre = sum(1 for d in cc.decisions if d[3] == "preempt")
     out.fired["preempt"] += npre
     out.nontrivial = npre > 0
